@@ -387,6 +387,7 @@ static void trap_bounds_case(uint64_t idx, void *vctx)
 int main(int argc, char **argv)
 {
     vf_init(argc, argv, "C03", "exploration");
+    vf_quick_is_deep();      /* the larger alphabets complete in well under a minute: the quick tier uses them too */
     int th = vf_is_thorough();
     vf_rule = "E1: a case fixes (destination size, format, destination clip, destination alpha map, source option = clip shape x clip_sources x client_clip x offset, mask option) and "
               "executes 840 request rectangles (x in {-2,-1,0,1,W-1,W,W+1}, y in {-1,0,1,H}, w in {0,1,2,W,W+3,2^30}, h in {0,1,H,H+2,2^30}) twice (complementary fill/source) with OP_SRC; "
